@@ -288,6 +288,56 @@ def case_edit_removetips(g, rng, tier):
          "names": list(remove), "reinit": rng.random() < 0.5}
     return {"sx": sx(c), "meta": {"kind": "edit", "op": "removetips:" + mode, "reinit": c["reinit"]}}
 
+def case_handbuilt(g, rng, tier):
+    """a tree assembled with NewNode/ConnectNodes (branch directions: none / all / random / one deep branch flipped),
+    then Reroot(root) | SetRoot(n)+Reroot(n) | RerootFirst, then ReinitIndexes"""
+    n = rng.randint(4, 20)
+    t = g.tree(ntips=n, maxdeg=rng.choice([2, 3, 4]), lenmode="all", supmode="mixed", up_random=False,
+               rooted=rng.random() < 0.3)
+    names = tricky_names(rng, n)
+    t = rename(t, {"t%d" % i: names[i] for i in range(n)})
+    ne = n_edges(t)
+    mode = rng.choice(["none", "all", "random", "random", "deep"])
+    if mode == "none":
+        flip = [False] * ne
+    elif mode == "all":
+        flip = [True] * ne
+    elif mode == "random":
+        flip = [rng.random() < 0.5 for _ in range(ne)]
+    else:
+        flip = [False] * ne
+        flip[rng.randrange(ne // 2, ne)] = True
+    nodes = list(preorder(t))
+    inner = [i for i, x in enumerate(nodes) if len(x["slots"]) >= 2]
+    seq = rng.choice(["reroot_root", "reroot_root", "setroot_reroot", "setroot_reroot", "rerootfirst"])
+    c = {"kind": Sym("handbuilt"), "tree": T(t), "flip": [bool(f) for f in flip], "seq": Sym(seq),
+         "i": rng.choice(inner)}
+    return {"sx": sx(c), "meta": {"kind": "handbuilt", "flip": mode, "seq": seq}}
+
+def case_parmap(g, rng, tier):
+    """k goroutines on one shared HashMap; every key is owned by one goroutine"""
+    k = rng.choice([2, 4, 8])
+    nkeys = rng.randint(40, 160)
+    keys = [[rng.randrange(0, 2 ** 64), i] for i in range(nkeys)]
+    owner = [rng.randrange(k) for _ in range(nkeys)]
+    gops = []
+    for gi in range(k):
+        mine = [i for i in range(nkeys) if owner[i] == gi]
+        ops = []
+        for i in mine:
+            ops.append([Sym("put"), i, rng.randrange(0, 1000)])
+        for _ in range(len(mine) // 2):
+            i = rng.choice(mine)
+            ops.append([Sym("put"), i, rng.randrange(0, 1000)] if rng.random() < 0.5 else [Sym("val"), i])
+        rng.shuffle(ops)
+        for i in mine:
+            ops.append([Sym("val"), i])
+        gops.append(ops)
+    cap = rng.choice([1, 2, 3, 10])
+    lf = rng.choice([Fraction(3, 4), Fraction(3, 4), Fraction(1, 2), Fraction(1)])
+    c = {"kind": Sym("parmap"), "cap": cap, "lf": lf, "reps": 3, "keys": keys, "gops": gops}
+    return {"sx": sx(c), "meta": {"kind": "parmap", "k": k, "cap": cap}}
+
 def load_factor(rng):
     r = rng.random()
     if r < 0.25:
@@ -407,12 +457,15 @@ def case_quartet(g, rng, tier, small=None):
 
 def gen(rng, tier):
     g = Gen(rng)
-    counts = {"quick":    {"index": 130, "edit": 120, "samebip": 60, "edgeindex": 90, "hashmap": 90, "qmap": 25, "quartet": 12},
-              "thorough": {"index": 2500, "edit": 2500, "samebip": 900, "edgeindex": 1500, "hashmap": 1500, "qmap": 300, "quartet": 150},
-              "search":   {"index": 100, "edit": 100, "samebip": 50, "edgeindex": 80, "hashmap": 80, "qmap": 20, "quartet": 10}}[tier]
+    counts = {"quick":    {"index": 100, "edit": 100, "handbuilt": 40, "samebip": 45, "edgeindex": 70, "hashmap": 60, "parmap": 12,
+                           "qmap": 20, "quartet": 10},
+              "thorough": {"index": 2500, "edit": 2500, "handbuilt": 800, "samebip": 900, "edgeindex": 1500, "hashmap": 1500,
+                           "parmap": 150, "qmap": 300, "quartet": 150},
+              "search":   {"index": 100, "edit": 100, "handbuilt": 60, "samebip": 50, "edgeindex": 80, "hashmap": 80, "parmap": 20,
+                           "qmap": 20, "quartet": 10}}[tier]
     def edit_any(g, rng, tier):
         return case_edit_removetips(g, rng, tier) if rng.random() < 0.3 else case_edit(g, rng, tier)
-    makers = {"index": case_index, "edit": edit_any, "samebip": case_samebip, "edgeindex": case_edgeindex, "hashmap": case_hashmap,
+    makers = {"index": case_index, "edit": edit_any, "handbuilt": case_handbuilt, "parmap": case_parmap, "samebip": case_samebip, "edgeindex": case_edgeindex, "hashmap": case_hashmap,
               "qmap": case_qmap, "quartet": case_quartet}
     out = []
     # the smallest quartet pairs first: taxa {0,1,2,3} against itself
